@@ -514,11 +514,16 @@ macro_rules! kind_reversed {
     (di) => {
         /// runs `f(index, edge, which)` for every edge the iterator yields; `f` returns false to stop (cap); returns false if stopped
         /// a second iterator over the same list, kept suspended while the loop under test runs
-        pub fn second_iter<'a>(n: &'a N, which: &str) -> Box<dyn Iterator<Item = (usize, usize, u32)> + 'a> {
+        pub fn second_iter<'a>(n: &'a N, which: &str, over: bool) -> Box<dyn Iterator<Item = (usize, usize, u32)> + 'a> {
+            // (stepped on the iterator itself, not through an adapter: `nth` of the edge iterator is part of its surface)
             if which == "in" {
-                Box::new(n.iter_in().map(|Edge(u, v, e)| (*u.key(), *v.key(), e)))
+                let mut it = n.iter_in();
+                let _ = if over { it.nth(1000) } else { it.next() };
+                Box::new(it.map(|Edge(u, v, e)| (*u.key(), *v.key(), e)))
             } else {
-                Box::new(n.iter_out().map(|Edge(u, v, e)| (*u.key(), *v.key(), e)))
+                let mut it = n.iter_out();
+                let _ = if over { it.nth(1000) } else { it.next() };
+                Box::new(it.map(|Edge(u, v, e)| (*u.key(), *v.key(), e)))
             }
         }
         /// the same loop driven by the iterator's internal iteration (`for_each`, i.e. `fold`; also behind `count`, `sum`, `map`)
@@ -607,8 +612,10 @@ macro_rules! kind_reversed {
         }
     };
     (un) => {
-        pub fn second_iter<'a>(n: &'a N, _which: &str) -> Box<dyn Iterator<Item = (usize, usize, u32)> + 'a> {
-            Box::new(n.iter().map(|Edge(u, v, e)| (*u.key(), *v.key(), e)))
+        pub fn second_iter<'a>(n: &'a N, _which: &str, over: bool) -> Box<dyn Iterator<Item = (usize, usize, u32)> + 'a> {
+            let mut it = n.iter();
+            let _ = if over { it.nth(1000) } else { it.next() };
+            Box::new(it.map(|Edge(u, v, e)| (*u.key(), *v.key(), e)))
         }
         pub fn iter_fold(n: &N, _which: &str, f: &mut dyn FnMut(usize, (usize, usize, u32), &str) -> bool) -> bool {
             let mut i = 0;
@@ -1067,9 +1074,9 @@ macro_rules! ext_mod {
                         // `iter ... fold`: the loop is driven by `Iterator::for_each` instead of a `for` statement
                         // a second iterator over the same list is created first, stepped once and left suspended while the loop
                         // under test (and whatever its body does) runs; it is drained afterwards
-                        let mut it2 = second_iter(&node, t[1]);
-                        let _ = it2.next();
-                        let looper: fn(&N, &str, &mut dyn FnMut(usize, (usize, usize, u32), &str) -> bool) -> bool = if t.get(4) == Some(&"fold") { iter_fold } else { iter_loop };
+                        // (`over`: sent past the end first - `nth` beyond the list answers None and leaves the cursor at the end)
+                        let it2 = second_iter(&node, t[1], t.iter().skip(4).any(|x| *x == "over"));
+                        let looper: fn(&N, &str, &mut dyn FnMut(usize, (usize, usize, u32), &str) -> bool) -> bool = if t.iter().skip(4).any(|x| *x == "fold") { iter_fold } else { iter_loop };
                         let r = looper(&node, t[1], &mut |i, tri, which| {
                             let live = st.lists();
                             let n = live.iter().find(|n| n.key == u).unwrap();
@@ -1091,7 +1098,9 @@ macro_rules! ext_mod {
                             yielded.len() < 300
                         });
                         // the suspended iterator goes on: what it yields now exists now
+                        let mut drained: Vec<(usize, usize, u32)> = vec![];
                         for (k, tri) in it2.enumerate() {
+                            drained.push(tri);
                             let live = st.lists();
                             let n = live.iter().find(|n| n.key == u).unwrap();
                             let ok = if t[1] == "in" { tri.1 == u && n.inn.contains(&(tri.0, tri.2)) } else { tri.0 == u && n.out.contains(&(tri.1, tri.2)) };
@@ -1113,7 +1122,7 @@ macro_rules! ext_mod {
                                 ctx.fail(case, li, "c20", format!("`{raw}`: the loop did not end within 300 steps although the script stopped adding edges"));
                             }
                         }
-                        if !r { "hang".to_string() } else { format!("yield={} res=[{}]", fmt_edges(&yielded), res.join(",")) }
+                        if !r { "hang".to_string() } else { format!("yield={} res=[{}] it2={}", fmt_edges(&yielded), res.join(","), fmt_edges(&drained)) }
                     }
                     "lt" => match &ext.last_lt {
                         // lock trace of the preceding edge operation (sync flavours; empty for the plain ones)
